@@ -347,6 +347,40 @@ def rfwd_forwarding(chk: Check) -> None:
     shared.forwarding_rule(chk, "C06.FWD", ('schemas.py:APIOperation.Case', 'specs/openapi/schemas.py:SwaggerV20.make_case', 'specs/graphql/schemas.py:GraphQLSchema.make_case', 'generation/case.py:Case.call', 'generation/case.py:Case.as_transport_kwargs'), "case components on their way to the transport", 4)
 
 
+def r8_worklist_pushes_elements(chk: Check) -> None:
+    chk.rule("C06.R8", "WORKLIST(value walkers in the request-shaping code): inside `while stack:` traversals, what is pushed from within a loop over a container is an ELEMENT of that container (or something derived from it), never the container that is being iterated - re-pushing the container means nested lists / dicts are never visited and their Python-specific values (True / None) reach the wire untranslated", floor=2)
+    P = chk.project
+    n = 0
+    for fn in P.all_functions():
+        if isinstance(fn.node, ast.Lambda) or not fn.module.relpath.startswith(("specs/openapi/", "transport/", "generation/", "core/transforms.py")):
+            continue
+        lists = {w.test.id for w in walk_body(fn.node) if isinstance(w, ast.While) and isinstance(w.test, ast.Name)}
+        if not lists:
+            continue
+        for c in body_calls(fn):
+            if not (isinstance(c.func, ast.Attribute) and c.func.attr in ("append", "extend") and isinstance(c.func.value, ast.Name) and c.func.value.id in lists and c.args and isinstance(c.args[0], ast.Name)):
+                continue
+            pushed = c.args[0].id
+            loops = [a for a in ancestors(c) if isinstance(a, ast.For) and is_within(a, fn.node)]
+            containers = set()
+            for lp in loops:
+                it = lp.iter
+                m = pmatch("$X.items()", it) or pmatch("$X.values()", it) or pmatch("enumerate($X)", it)
+                base = m["X"] if m else it
+                if isinstance(base, ast.Name):
+                    containers.add(base.id)
+            n += 1
+            construct = f"{fn.name}: `{unparse(c, 40)}` pushes an element"
+            if pushed in containers:
+                chk.violation("C06.R8", fn, construct,
+                              f"`{pushed}` is the container the enclosing loop iterates: the nested value that was just tested is never pushed, so lists inside the case's query / headers / cookies are not visited and `True` / `None` in them are sent as `True` / dropped instead of `true` / `null` (`flags=True&flags=False`)",
+                              fn.loc(c))
+            else:
+                chk.ok("C06.R8", fn, construct, "", fn.loc(c))
+    if n < 2:
+        chk.undecided("C06.R8", "<discovery>", f"pushes={n}", "fewer worklist pushes than confirmed by hand")
+
+
 def r7_sanitizer_on_copies(chk: Check) -> None:
     from . import shared
 
@@ -354,4 +388,4 @@ def r7_sanitizer_on_copies(chk: Check) -> None:
 
 
 def rules(tier: str) -> list:  # type: ignore[type-arg]
-    return [r1_registries, r2_content_type, r3_quote_all, r3b_template_ownership, r4_header_writers, r5_cookie_pair, r6_no_truthiness_rewrite, r7_sanitizer_on_copies, rfwd_forwarding]
+    return [r1_registries, r2_content_type, r3_quote_all, r3b_template_ownership, r4_header_writers, r5_cookie_pair, r6_no_truthiness_rewrite, r7_sanitizer_on_copies, r8_worklist_pushes_elements, rfwd_forwarding]
